@@ -1,6 +1,7 @@
 """Runs one shard of a check in its own process: python -m vk.shard C01 spec.json out.json"""
 import importlib
 import json
+import os
 import sys
 import warnings
 
@@ -19,8 +20,15 @@ def main():
         mod.run_shard(spec, res)
     except Exception as e:  # the harness itself failed: inconclusive, never "held"
         res.harness_error("run_shard", e)
+    hs = os.environ.get("PYTHONHASHSEED", "0")
+    res.count("shards_with_pyhashseed:" + ("0" if hs == "0" else "varied"))
+    out = res.to_json()
+    if hs != "0":
+        for v in out.get("violations", []):
+            if isinstance(v.get("witness"), dict):
+                v["witness"]["pyhashseed"] = hs
     with open(op, "w") as f:
-        f.write(jdump(res.to_json()))
+        f.write(jdump(out))
 
 
 if __name__ == "__main__":
